@@ -28,9 +28,14 @@ PROPS = {
          "the lazy sequences (range_rt).",
          "A1, A2, A7; empty-leaf minKey()/maxKey() raising IndexError in Python is a recorded finding", "7/C02"),
  "C03": (True, "proof", T_P + BOUNDED,
-         "Proved: leaf split (halves, sibling link, flags), unlink of the next leaf, sortedness/pairing preserved by "
-         "every leaf mutator. Bounded: node invariants I1-I9 after every call of both implementations (hist_rt wf mode).",
-         "A1-A3, A7; L-height / L-chain argued in DESIGN.md 5.4", "7/C03"),
+         "Proved (Python, all trees): every mutator of the interior-node layer (_Tree._set, _grow, _split, _split_root, _del, "
+         "_deleteNextBucket; structural view, node-local with children abstracted by first-leaf / successor-link summaries) "
+         "preserves exactly the clauses _check() tests, incl. the first-leaf hand-off of deletions, the linking of split halves "
+         "and the root split; leaf split / unlink / sortedness; _check itself returns normally iff those clauses hold. "
+         "Bounded: key containment within separator ranges, size limits, the C implementation (hist_rt wf mode).",
+         "A1-A3, A7, A8b (an operation on a child changes only that child's subtree: the modifies lists; the same frame is what the "
+         "contract claims for the node itself), node sizes >= 1; L-height argued in DESIGN.md 5.4; _Tree.minKey assumed total on a "
+         "non-empty subtree", "7/C03 and 12.7"),
  "C06": (True, "other", T_P + BOUNDED,
          'Proved (Python): Bucket/Set __getstate__ emit the documented tuple, __setstate__ reads it back (TypeError exactly for a non-tuple), and the round trip x.__setstate__(y.__getstate__()) restores ordered contents, link and sortedness (lemma programs over the contracts). Bounded: tree states, pickle protocols 0-5, copy, C/Python byte identity and cross-loading, stored containers (pickle_rt).',
          'A1, A7; pickle/copy and the C state code are outside both engines; recorded findings (non-root node inlining its only leaf, copy.copy of a Python tree, fs memo sharing)', "7/C06 and 12"),
@@ -67,9 +72,12 @@ PROPS = {
          "Proved for unbounded integers: every method of BTrees.Length, the resolution formula in both orders. "
          "Pickle/copy survival is a bounded run-time check.", "A1, A7", "7/C19"),
  "C04": (True, "proof", T_P + BOUNDED,
-         "Proved: every Python leaf mutator requests registration exactly when the leaf's serialised state changes. "
-         "Bounded: interior nodes, the C implementation, commit/reload/abort end to end with a stub data manager (persist_rt).",
-         "A1-A3, A7; L-persist argued in DESIGN.md 5.4; T-DIRTY for C not discharged; recorded finding: non-root node inlining its only leaf", "7/C04"),
+         "Proved (Python): every leaf mutator requests registration exactly when the leaf's serialised state changes; every "
+         "interior-node mutator (struct view: _set, _grow, _split_root, _del) registers every change of the node's own state "
+         "(child list, separators, first bucket) and the change of an embedded oid-less leaf (thorough tier; C03 runs the same "
+         "proofs in the quick tier). Bounded: the C implementation, commit/reload/abort end to end with a stub data manager (persist_rt).",
+         "A1-A3, A7; L-persist argued in DESIGN.md 5.4; T-DIRTY for C not built; recorded finding: non-root node inlining its only leaf; "
+         "fixed: fsBucket.fromString did not register (77c333c)", "7/C04 and 12.7"),
  "C05": (True, "proof", T_C + BOUNDED,
          "Proved for every function of the translation units, every exit: no pin outlives the call (T-PIN), and every access to a node's vectors "
          "happens while the node is not a ghost (T-USE: inferred caller-activates protocol proved at every call site, un-pin summaries as a fixpoint of "
